@@ -1,5 +1,5 @@
 """C12: split, tok and the word utilities implement one quoting grammar (spec/Quote.tla)."""
-import os, json, random, threading, queue
+import os, json, random
 from vlib import build, x_c12
 from vlib.core import tok, untok, Broken, log
 
@@ -97,26 +97,8 @@ def txt(codes):
 def exhaustive(ctx, exe):
     cfg = "Quote_quick.cfg" if ctx.tier == "quick" else "Quote_thorough.cfg"
     cfg = os.environ.get("VERIF_C12_CFG", cfg)      # development knob (smaller scope); not used by the registered commands
-    q = queue.Queue(maxsize=8)
     stats = {"n": 0, "nontrivial": 0}
-    err = []
-
-    def worker():
-        k = 0
-        while True:
-            part = q.get()
-            if part is None:
-                return
-            k += 1
-            try:
-                if not err:
-                    x_c12.run_cases(ctx, exe, [], part, keyfn, "exh%d" % k)
-            except Exception as e:          # surfaced after the TLC run
-                err.append(e)
-
-    th = threading.Thread(target=worker, daemon=True)
-    th.start()
-    buf = []
+    cs = x_c12.CaseStream(ctx, exe, [], keyfn, "exhaustive_cases")
 
     def on_case(r):
         stats["n"] += 1
@@ -126,31 +108,14 @@ def exhaustive(ctx, exe):
         if stats["n"] in (7, 5000, 20011, 40000) or (BS in s and DQ in s and len(r["split"]) == 2 and len(ctx.cov["samples"]) < 6):
             ctx.sample({"delims": txt(r["d"]) if r["d"] else "(white space)", "input": txt(s), "split": [txt(t) for t in r["split"]],
                         "tok": [txt(t) for t in r["tok"]], "num_words": r["nw"], "words": [txt(t) for t in r["words"]], "pword_offsets": r["pw"]})
-        buf.append(mk_case(stats["n"], r))
-        if len(buf) >= 10000:
-            q.put(list(buf))
-            del buf[:]
+        cs.add(mk_case(stats["n"], r))
 
     try:
         res = x_c12.tlc_cases(ctx, "MC_Quote.tla", cfg, ACTIONS, on_case)
     finally:
-        if buf:
-            q.put(list(buf))
-        q.put(None)
-        th.join()
-    if err:
-        raise err[0]
-    # merge the per-chunk replay records
-    rp = ctx.cov.get("replay", {})
-    tot = {"scripts": 0, "steps": 0, "failed_steps": 0, "remainder_reruns": 0, "wall_s": 0.0}
-    for k in [k for k in rp if k.startswith("exh")]:
-        for f in tot:
-            tot[f] += rp[k][f]
-        del rp[k]
-    tot["wall_s"] = round(tot["wall_s"], 1)
-    rp["exhaustive_cases"] = tot
-    if res.ok and tot["scripts"] != stats["n"]:
-        raise Broken("emitted %d cases but replayed %d scripts" % (stats["n"], tot["scripts"]))
+        tot = cs.close()
+    if res.ok and tot["scripts"] != res.edges:
+        raise Broken("emitted %d cases but replayed %d scripts" % (res.edges, tot["scripts"]))
     ctx.add("distinct_nontrivial", stats["nontrivial"])
     return res
 
